@@ -378,13 +378,17 @@ Definition attribute (k : bytes) : tree :=
    tag 1 (keys):  payload = [requests]                     -> [[key bytes ...], prefix table bytes]
    tag 2 (store): payload = [ops]                          -> [dump after each op]
    tag 3 (frame): payload = [c1, [[key, ids before, ids after] ...]] -> [[attribute of each key]]
-   tag 4 (lint):  payload = [[p, form] ...] expected sites -> the same list *)
+   tag 4 (lint):  payload = [[p, form] ...] expected sites -> the same list
+   tag 5 (differential frame): as tag 3, but the "changes" are the keys whose value differs between two
+                  runs of the same history, one with and one without the operation on c1, after a common
+                  continuation (BeginBlock / epoch EndBlock / time advance); monitor clauses 11..14 = 1..4 *)
 Definition run (input : tree) : tree :=
   let tag := tz (tnth 0 input) in
   let pl := tnth 1 input in
   if tag =? 1 then TL [TL (map run_key (tlist pl)); of_zs prefix_bytes]
   else if tag =? 2 then TL (run_ops [] (map dec_op (tlist pl)))
-  else if tag =? 3 then TL [TL (map (fun ch => attribute (tbytes (tnth 0 ch))) (tlist (tnth 1 pl)))]
+  else if (tag =? 3) || (tag =? 5)
+  then TL [TL (map (fun ch => attribute (tbytes (tnth 0 ch))) (tlist (tnth 1 pl)))]
   else if tag =? 4 then TL (map (fun e => TL [TI (tz (tnth 0 e)); TI (tz (tnth 1 e))]) (tlist pl))
   else TL [].
 
@@ -472,5 +476,6 @@ Definition mon (input obs : tree) : tree :=
     (if tag =? 1 then (if nodupb (tzs (tnth 1 obs)) then [] else [7])
      else if tag =? 2 then mon_store [] (map dec_op (tlist pl)) (tlist obs)
      else if tag =? 3 then mon_frame pl obs
+     else if tag =? 5 then map (Z.add 10) (mon_frame pl obs)
      else if tag =? 4 then mon_lint obs
      else [])).
